@@ -6,13 +6,13 @@ CONSTANTS
   MaxIdx = 1
   MaxAccts = 3
   PWs = {"p1", "p2"}
-  PubPWs = {"pub1"}
+  PubPWs = {"pub1", "pub2"}
   Names = {"alice"}
   XNames = {"xacct"}
   ImpIds = {"p1"}
   MaxSync = 0
   Outcomes = {"commit", "rollback"}
-  Acts = {"NextAddr", "Lookup", "NewAccount", "ImportXpub", "Import", "Rename", "Unlock", "Lock", "Restart"}
+  Acts = {"NextAddr", "Lookup", "NewAccount", "ImportXpub", "Import", "Rename", "Unlock", "Lock", "ChangeBoth", "Restart"}
   NoRollback = {"NextAddr", "NewAccount", "Rename", "Import"}
   MaxHist = 60
   FullHist = FALSE
